@@ -85,6 +85,12 @@ def vec_names(spec, vec):
     if t == "vslice":
         d = var_decl(spec, vec[1])
         return [f"{d['name']}[{i}]" for i in range(d["n"])][vec[2] : vec[3]]
+    if t == "vrev":
+        d = var_decl(spec, vec[1])
+        return [f"{d['name']}[{i}]" for i in range(d["n"])][::-1]
+    if t == "vstride":
+        d = var_decl(spec, vec[1])
+        return [f"{d['name']}[{i}]" for i in range(d["n"])][:: vec[2]]
     if t == "mrow":
         d = var_decl(spec, vec[1])
         return [mel_name(d, vec[2], j) for j in range(d["cols"])]
@@ -184,10 +190,13 @@ def params_in(e, acc=None):
 # --------------------------------------------------------------------------
 
 
+_SHARED_Q = {}
+
+
 class Model:
     """Real optyx objects for one spec."""
 
-    __slots__ = ("spec", "vars", "params", "elems", "exprs", "cons", "problem", "handles", "last_values")
+    __slots__ = ("spec", "vars", "params", "elems", "exprs", "cons", "problem", "handles", "last_values", "views")
 
     def __init__(self):
         self.vars = {}
@@ -198,6 +207,7 @@ class Model:
         self.problem = None
         self.handles = {}
         self.last_values = None
+        self.views = {}
 
 
 def build_model(spec, params_as_constants=False):
@@ -258,11 +268,25 @@ def build_model(spec, params_as_constants=False):
 
 
 def build_vec(m, vec):
+    if m.spec.get("share_views"):
+        # the user names a view once (r = x[::-1]) and reuses that object everywhere
+        key = repr(vec)
+        if key not in m.views:
+            m.views[key] = _build_vec(m, vec)
+        return m.views[key]
+    return _build_vec(m, vec)
+
+
+def _build_vec(m, vec):
     t = vec[0]
     if t == "vec":
         return m.vars[vec[1]]
     if t == "vslice":
         return m.vars[vec[1]][vec[2] : vec[3]]
+    if t == "vrev":
+        return m.vars[vec[1]][::-1]
+    if t == "vstride":
+        return m.vars[vec[1]][:: vec[2]]
     if t == "mrow":
         return m.vars[vec[1]][vec[2], :]
     if t == "mcol":
@@ -353,7 +377,17 @@ def build_expr(m, e):
         return build_vec(m, e[1]).dot(build_vec(m, e[2]))
     if t == "quad":
         v = build_vec(m, e[1])
-        return v.dot(np.array(e[2], dtype=float) @ v)
+        Q = np.array(e[2], dtype=float)
+        tag = m.spec.get("shared_q")
+        if tag:
+            # the user keeps ONE preallocated matrix buffer and overwrites it in place for every new
+            # model (earlier users of the buffer have been dropped by then)
+            buf = _SHARED_Q.get((tag, Q.shape))
+            if buf is None:
+                buf = _SHARED_Q[(tag, Q.shape)] = np.zeros(Q.shape)
+            buf[...] = Q
+            Q = buf
+        return v.dot(Q @ v)
     if t == "norm":
         return build_vec(m, e[1]).norm(e[2])
     if t == "chain":
